@@ -116,6 +116,21 @@ func init() {
 		ID: "C04",
 		Gen: func(t *rapid.T, tier string) *world.Plan {
 			var p *world.Plan
+			if rapid.IntRange(0, 3).Draw(t, "straddle") == 0 {
+				// focused: the first claim payment attempts fail shortly before the window
+				// closes and blocks keep arriving while the pay loop retries
+				p = genPlan(t, genOpts{chains: []string{"lbtc"}, sched: true, duration: []int{300}, backends: []string{"elementsd"}})
+				first := 0
+				if len(p.Ops) > 0 && p.Ops[0].Kind == "swapout" {
+					first = 1 // attempt 0 is the fee payment
+				}
+				for i, n := 0, rapid.IntRange(1, 4).Draw(t, "failures"); i < n; i++ {
+					p.LN = append(p.LN, world.LNFault{Idx: first + i, Kind: pick(t, "lnkind", []string{"fail", "fail", "errpending-fail"})})
+				}
+				p.Scn.LBlockEverySec = pick(t, "lblock", []int{2, 3, 5, 10})
+				p.Chain = append(p.Chain, world.ChainEv{AtMs: rapid.IntRange(2030, 2600).Draw(t, "burstat"), Chain: "lbtc", Kind: "mine", N: rapid.IntRange(48, 59).Draw(t, "burst")})
+				return p
+			}
 			if rapid.Bool().Draw(t, "adv") {
 				p = advMakerPlan(t, []string{"lbtc"}, false)
 				p.AdvCfg.Inv.CLTV = pick(t, "cltv", []int{-1, 1, 20, 28, 29, 30, 31, 40})
